@@ -555,6 +555,15 @@ pub mod implementations {
                     var
                 } else if let Some(var) = ctx.load_variable(var_name) {
                     var
+                } else if ctx.owner().name() == var_name {
+                    // the body of a class mentions the class itself (a method constructs another
+                    // instance) while the module that declared it is not on the call stack:
+                    // the name is the function being executed.
+                    let itself = PrimitiveFunction::new(
+                        ctx.owner().get_qualified_name(),
+                        ctx.get_callback_variables(),
+                    );
+                    PrimitiveFlagsPair::new(function!(itself), VariableFlags(READ_ONLY))
                 } else {
                     bail!("{var_name} is not in scope")
                 };
